@@ -283,6 +283,10 @@ func RunEntry(l *driver.Loaded, b *Builder, entryKey string, opt RunOpts) (*Entr
 				textOnly := false
 				for _, t := range con.Attrs["o-text-only"] {
 					t = strings.TrimSpace(t)
+					if t == "all" {
+						textOnly = true
+						continue
+					}
 					if strings.HasPrefix(t, "decision:") {
 						for _, d := range p.Decisions {
 							if d == strings.TrimPrefix(t, "decision:") {
